@@ -370,9 +370,12 @@ def run(ck):
     maxn = 4 if ck.quick else 8
     jobs = [("c08_%s" % s, ["C08/harness.cxx", vlib.REPO + "/src/Exception/ContractViolation.cxx"], ("-DC08_SOLVER=%d" % k, "-DC08_MAXN=%d" % maxn, "-w"))
             for k, s in enumerate(SOLVERS)]
-    bins = ck.cxx_many(jobs, sanitize=True)
-    driver = ck.lean_exe("c08driver", "TfelVerif/C08/Driver.lean")
-    res = ck.lean(PROPS, PROPS)
+    from concurrent.futures import ThreadPoolExecutor
+    with ThreadPoolExecutor(max_workers=1) as ex:      # harness builds overlap with the Lean builds
+        fut = ex.submit(ck.cxx_many, jobs, sanitize=True)
+        driver = ck.lean_exe("c08driver", "TfelVerif/C08/Driver.lean")
+        res = ck.lean(PROPS, PROPS)
+        bins = fut.result()
     ck.lean_violations(res)
     if not ck.quick:
         for m, msg in ck.leanchecker(PROPS):
@@ -399,10 +402,17 @@ def run(ck):
         reported.add(key)
         ck.violation(key, what, rep, found)
 
+    def both(s):
+        lines = [r.line for r in by_solver[s]]
+        return run_lines(ck, [bins["c08_%s" % s]], lines, 1500), run_lines(ck, [driver], lines, 1500)
+
+    with ThreadPoolExecutor(max_workers=6) as ex:
+        outputs = dict(zip(SOLVERS, ex.map(both, SOLVERS)))
+    ck.log("ran %d scripted runs on the six solvers and on the model" % len(reqs))
+
     for s in SOLVERS:
         rs = by_solver[s]
-        lines = [r.line for r in rs]
-        impl, off, why = run_lines(ck, [bins["c08_%s" % s]], lines, 1500)
+        (impl, off, why), (model, moff, mwhy) = outputs[s]
         if impl is None:
             r = rs[off]
             report("%s:%s" % (BASE, "no-termination-or-crash"),
@@ -410,9 +420,8 @@ def run(ck):
                    {"solver": s, "request": r.line, "n": r.n, "iterMax": r.itermax, "reason": why,
                     "replay_cmd": "echo '<request>' | work/C08/c08_%s" % s}, True)
             continue
-        model, off, why = run_lines(ck, [driver], lines, 1500)
         if model is None:
-            report("corr:model-crash", "the Lean driver failed: %s" % why, {"request": rs[off].line}, False)
+            report("corr:model-crash", "the Lean driver failed: %s" % mwhy, {"request": rs[moff].line}, False)
             continue
         nsucc = 0
         for k, r in enumerate(rs):
